@@ -202,6 +202,11 @@ func (*Typechecker).VisitReturnStmt [C04]
   ensures stmt.Func != nil && retAccepts(stmt.Func.ReturnType, returnType) && reached(LE) ==> t.Module.Ast.Faulty == at(LE, t.Module.Ast.Faulty)
   ensures stmt.Func != nil && retAccepts(stmt.Func.ReturnType, returnType) && !reached(LE) ==> t.Module.Ast.Faulty == old(t.Module.Ast.Faulty)
 
+// C03: a return statement outside of any function (the parser reports it and leaves Func nil) must not crash the checker
+func (*Typechecker).VisitReturnStmt#2 [C03]
+  safe
+  requires t != nil && t.Module != nil && t.Module.Ast != nil && t.panicMode != nil && stmt != nil
+
 // ================= C14 / C04: what a variable accepts =================
 // verbatim from the statement: equivalent types, any numeric type for any numeric type, and any value but
 // 'nothing' for Variable
